@@ -124,6 +124,9 @@ class AccessMixin:
         return f(*args)
 
     def read_field(self, base: SV, attr: str, fty, fr) -> SV:
+        prot = getattr(self, "protect", None)
+        if prot and base.ty is not None and base.ty.name in prot and attr not in prot[base.ty.name] and not self.pure:
+            self.protect_hook(self, base, attr, fr)
         t = self.st.read(attr, RID(base.term))
         if fty is not None and fty.name == "self":
             fty = base.ty
@@ -274,6 +277,10 @@ class AccessMixin:
         top = getattr(self, "top_contract", None)
         if top is not None and text in top.calls:
             return top.calls[text]      # inlined callees run under the assumed contracts of the function being verified
+        if top is not None:
+            for k, h in top.calls.items():
+                if k.endswith("*") and text.startswith(k[:-1]):
+                    return h            # prefix handler, e.g. "agg.*"
         return None
 
     def eval_args(self, node, fr):
@@ -313,9 +320,67 @@ class AccessMixin:
             r = self.spec_call(node, fr)
             if r is not None:
                 return r
+        if getattr(self, "lenient", False):
+            return self.ev_call_lenient(node, fr, text)
         f = self.ev(node.func, fr)
         args, kwargs = self.eval_args(node, fr)
         return self.call_value(f, args, kwargs, fr, node)
+
+    def ev_call_lenient(self, node, fr, text):
+        """Lenient mode (guard-dominance properties): a call the executor cannot follow becomes an opaque value, provided the
+        callee's source does not mention a protected accessor prefix (then it must be followed, or the function is reported)."""
+        prefixes = self.top_contract.options.get("protected_prefixes", ())
+        try:
+            f = self.ev(node.func, fr)
+        except Unsupported:
+            f = None
+        try:
+            args, kwargs = self.eval_args(node, fr)
+        except Unsupported:
+            args, kwargs = [], {}
+        return self.lenient_apply(f, args, kwargs, fr, node, text)
+
+    def lenient_apply(self, f, args, kwargs, fr, node, text):
+        prefixes = self.top_contract.options.get("protected_prefixes", ())
+        fi = None
+        if f is not None and f.meta is not None:
+            if f.meta[0] in ("func", "bound"):
+                fi = f.meta[1]
+            elif f.meta[0] == "class":
+                fi = f.meta[1].find_method(self.repo, "__init__")
+        try:
+            if f is None or f.meta is None:
+                raise Unsupported("opaque callable")
+            return self.call_value(f, args, kwargs, fr, node)
+        except Unsupported as e:
+            src = fi.source if fi is not None else ""
+            if any(p in src for p in prefixes):
+                raise Unsupported(f"lenient mode cannot skip `{text}`: callee mentions a protected accessor ({e})")
+            self.assumptions.add("LENIENT: calls the executor cannot follow (DTO mapping, parsing, formatting, pydantic constructors) "
+                                 "are opaque values without effect on authorization")
+            prot = getattr(self, "protect", None)
+            derived = False
+            if prot and not self.pure:
+                for a in list(args) + list(kwargs.values()):
+                    if a.ty is not None and a.ty.name in prot and a.term is not None:
+                        self.protect_hook(self, a, f"<passed to `{text}`>", fr)
+                        derived = True
+            rty = None
+            if f is not None and f.meta is not None and f.meta[0] == "class":
+                rty = Ty(f.meta[1].name)
+            elif fi is not None and fi.node.returns is not None:
+                rty = parse_ann(fi.node.returns)
+                if rty is not None and rty.name in ("any", "self"):
+                    rty = None
+            res = self.fresh_sv("opaque", rty)
+            dh = self.top_contract.options.get("protect_derive")
+            if derived and dh is not None:
+                dh(self, res, fr)       # data derived from an authorized object is authorized
+            return res
+        except PyRaise as e:
+            if e.cls in ("ValidationError", "TypeError") and f is not None and f.meta is not None and f.meta[0] == "class":
+                return self.fresh_sv("opaque", Ty(f.meta[1].name))
+            raise
 
     def run_handler(self, h, text, args, kwargs, fr, node):
         from .api import Ctx
@@ -409,9 +474,12 @@ class AccessMixin:
                     nf.locals[p] = SV(sv.term, t, sv.meta)
 
     def call_function(self, fi: FuncInfo, args, kwargs, fr, selfsv, node) -> SV:
-        if fi.other_decorators and fi.other_decorators != ["setter"]:
+        if fi.other_decorators and fi.other_decorators != ["setter"] and not all(d.startswith("router.") for d in fi.other_decorators):
             raise Unsupported(f"decorated function {fi.qualname} {fi.other_decorators}")
         c = self.contracts.get(fi.qualname)
+        if c is not None and self.pure and c.options.get("pure_result") is not None:
+            from .api import Ctx
+            return c.options["pure_result"](Ctx(self, fr, fi.qualname, node), args, kwargs)
         if c is not None and not c.inline and fi.qualname != getattr(self, "top_qualname", None):
             return self.apply_contract(c, fi, args, kwargs, fr, selfsv, node)
         if fi.is_generator and not getattr(self, "allow_generator_inline", False):
